@@ -10,6 +10,8 @@ import (
 	"github.com/glebziz/fs_db/internal/model/sequence"
 )
 
+import "github.com/glebziz/fs_db/internal/verifhook"
+
 func (u *UseCase) DeleteOld(ctx context.Context) error {
 	tx, err := u.txRepo.Oldest(ctx)
 	if errors.Is(err, fs_db.ErrTxNotFound) {
@@ -20,6 +22,7 @@ func (u *UseCase) DeleteOld(ctx context.Context) error {
 		return fmt.Errorf("tx repo oldest: %w", err)
 	}
 
+	verifhook.At("gc.afterOldest")
 	files := u.core.DeleteOld(ctx, model.MainTxId, tx.Seq)
 	err = u.DeleteFiles(ctx, files)
 	if err != nil {
